@@ -64,6 +64,8 @@ def run(prog: Program, rep: Report):
                   "batch_size is not validated to be positive: with size 0 no batch is ever closed",
                   scenario="BatcherIter(data, 0) yields one unbounded batch instead of raising ValueError")
     r2_numerals(prog, rep)
+    r3_arg_sort(prog, rep)
+    r4_window_scan(prog, rep)
 
 
 def r2_numerals(prog: Program, rep: Report):
@@ -125,3 +127,69 @@ def r2_numerals(prog: Program, rep: Report):
     rep.check("C19.R2", w, "greedy-loop", ok, "divmod over the table entries, pieces joined in table order",
               "int_2_roman is not a greedy divmod over the table joined in order",
               scenario="numerals are emitted in the wrong order or with wrong multiplicities")
+
+
+def r3_arg_sort(prog: Program, rep: Report):
+    rep.rule("C19.R3", "arg_sort by delegation: it returns sorted(range(len(elements)), key=<elements[i]>, reverse=<the parameter>) "
+             "unmodified, so stability in both directions is the documented behaviour of sorted(); reversing an ascending "
+             "stable sort is recognisably wrong (ties come out in reverse index order)", floor=1)
+    f = prog.func("arg_sort", GENERIC_MOD)
+    rep.fn(f)
+    el, rev = f.params[0], f.params[1]
+    rets = returns_of(f.node)
+    ok = False
+    if len(rets) == 1 and isinstance(rets[0].value, ast.Call) and src(rets[0].value.func) == "sorted":
+        c = rets[0].value
+        key = next((k.value for k in c.keywords if k.arg == "key"), None)
+        r = next((k.value for k in c.keywords if k.arg == "reverse"), None)
+        ok = len(c.args) == 1 and src(c.args[0]) == f"range(len({el}))" and isinstance(key, ast.Lambda) \
+            and isinstance(key.body, ast.Subscript) and src(key.body.value) == el and src(key.body.slice) == key.args.args[0].arg \
+            and r is not None and src(r) == rev
+    if ok:
+        rep.ok("C19.R3", f, "delegates", f"sorted(range(len({el})), key={el}[i], reverse={rev})")
+        return
+    reversal = [n for n in ast.walk(f.node) if (isinstance(n, ast.Call) and ((isinstance(n.func, ast.Attribute) and n.func.attr == "reverse")
+                                                                            or src(n.func) == "reversed"))
+                or (isinstance(n, ast.Subscript) and isinstance(n.slice, ast.Slice) and n.slice.step is not None
+                    and const_value(n.slice.step) == -1)]
+    passes_rev = any(isinstance(n, ast.keyword) and n.arg == "reverse" and src(n.value) == rev for n in ast.walk(f.node))
+    if reversal and not passes_rev:
+        rep.viol("C19.R3", f, "delegates", f"`{src(reversal[0])}` reverses an ascending stable sort instead of passing reverse= to "
+                 f"sorted(): equal keys come out in descending index order, which is not the stable descending permutation",
+                 scenario="arg_sort([1, 1, 2], reverse=True) returns [2, 1, 0] instead of [2, 0, 1]", line=reversal[0].lineno)
+    else:
+        rep.unrec("C19.R3", f, "delegates", "arg_sort is not the plain delegation to sorted(range(n), key=..., reverse=reverse)")
+
+
+def r4_window_scan(prog: Program, rep: Report):
+    rep.rule("C19.R4", "window scans examine every offset: sub_seq and search_sub_seq compare s1 with the window of s2 at every "
+             "offset 0 .. len(s2)-len(s1) (step 1, no early exit in the reporting variant)", floor=2)
+    for name in ("sub_seq", "search_sub_seq"):
+        f = prog.func(name, GENERIC_MOD)
+        rep.fn(f)
+        s1, s2 = f.params[0], f.params[1]
+        want = f"range(0, len({s2}) - len({s1}) + 1)"
+        alt = f"range(len({s2}) - len({s1}) + 1)"
+        iters = [n.iter for n in ast.walk(f.node) if isinstance(n, (ast.For, ast.comprehension))]
+        full = [it for it in iters if src(it) in (want, alt)]
+        whiles = [n for n in ast.walk(f.node) if isinstance(n, ast.While)]
+        if full and not whiles:
+            cmp_ok = any(isinstance(n, ast.Compare) and len(n.ops) == 1 and isinstance(n.ops[0], ast.Eq)
+                         and {src(n.left).split("[")[0], src(n.comparators[0]).split("[")[0]} == {s1, s2} for n in ast.walk(f.node))
+            early = name == "search_sub_seq" and any(isinstance(n, (ast.Break,)) for n in ast.walk(f.node))
+            rep.check("C19.R4", f, "every-offset", cmp_ok and not early, f"for every offset in {src(full[0])}: s1 == window",
+                      "the scan over all offsets does not compare s1 with the window at each offset (or leaves early)",
+                      scenario="an occurrence at some offset is not reported")
+            continue
+        # a hand-written stride: advancing by more than one position after a match skips overlapping occurrences
+        jumps = []
+        for w in whiles:
+            for n in ast.walk(w):
+                if isinstance(n, ast.AugAssign) and isinstance(n.op, ast.Add) and const_value(n.value, None) != 1:
+                    jumps.append(n)
+        if jumps:
+            rep.viol("C19.R4", f, "every-offset", f"`{src(jumps[0])}` advances the scan by a data-dependent stride: offsets are "
+                     f"skipped, so overlapping occurrences (any pattern with a proper border, e.g. 1,2,1,2) are not all reported",
+                     scenario="search_sub_seq([1,2,1,2], [1,2,1,2,1,2]) returns [(0, 4)] instead of [(0, 4), (2, 6)]", line=jumps[0].lineno)
+        else:
+            rep.unrec("C19.R4", f, "every-offset", "the scan is not the plain loop over all offsets")
